@@ -16,6 +16,9 @@ import (
 	"sort"
 	"strconv"
 	"strings"
+	"sync/atomic"
+	"syscall"
+	"time"
 
 	"verif/lib/gen"
 )
@@ -164,6 +167,14 @@ func (c *Case) NonTrivial(parts ...string) {
 	}
 }
 
+// Checkpoint flushes everything recorded before this case, so that nothing is lost
+// if the code under test ends the process (os.Exit, fatal error) during this case.
+func (c *Case) Checkpoint() {
+	if c.run.out != "" && c.run.sinceCk > 0 {
+		c.run.flush(false)
+	}
+}
+
 // Failed tells whether this case already recorded a violation.
 func (c *Case) Failed() bool { return c.nfail > 0 }
 
@@ -258,7 +269,12 @@ func (r *runner) runCase(prop string, s Sub, idx int, tier string, seed uint64, 
 	if r.wal != nil {
 		r.wal.WriteString("B " + s.Name + " " + strconv.Itoa(idx) + "\n")
 	}
+	if CPUBudget != 0 {
+		caseLabel.Store(s.Name + "#" + strconv.Itoa(idx))
+		caseStartCPU.Store(int64(cpuNow()) + 1)
+	}
 	panicked, msg, frame := Protect(func() { s.Run(c) })
+	caseStartCPU.Store(0)
 	if panicked {
 		first := msg
 		if i := strings.Index(first, "\n"); i > 0 {
@@ -285,6 +301,39 @@ func (r *runner) runCase(prop string, s Sub, idx int, tier string, seed uint64, 
 	}
 }
 
+// CPUBudget, when non zero, bounds the CPU time one case may consume (a logical,
+// load-independent non-termination oracle: process CPU time does not advance while
+// the process is not scheduled). Exceeding it ends the child with exit code 77.
+var CPUBudget time.Duration
+
+var caseStartCPU atomic.Int64
+var caseLabel atomic.Value
+
+func cpuNow() time.Duration {
+	var ru syscall.Rusage
+	syscall.Getrusage(syscall.RUSAGE_SELF, &ru)
+	return time.Duration(ru.Utime.Nano() + ru.Stime.Nano())
+}
+
+func startCPUWatch() {
+	if CPUBudget == 0 {
+		return
+	}
+	go func() {
+		for {
+			time.Sleep(500 * time.Millisecond)
+			st := caseStartCPU.Load()
+			if st == 0 {
+				continue
+			}
+			if used := cpuNow() - time.Duration(st); used > CPUBudget {
+				fmt.Fprintf(os.Stderr, "CPU-BUDGET exceeded: case %v used %v of CPU (budget %v)\n", caseLabel.Load(), used, CPUBudget)
+				os.Exit(77)
+			}
+		}
+	}()
+}
+
 // Main is the entry point of every monitor binary.
 func Main(prop string, subs []Sub) {
 	tier := flag.String("tier", "quick", "quick|thorough")
@@ -300,6 +349,7 @@ func Main(prop string, subs []Sub) {
 	list := flag.Bool("list", false, "")
 	flag.Parse()
 	log.SetOutput(io.Discard)
+	startCPUWatch()
 
 	if *list {
 		infos := []SubInfo{}
